@@ -40,9 +40,7 @@ def grid(ck, n):
 
 def real_ops(ck, pts):
     """Evaluate the real callables; returns (ID_TO_OP values, vectorised values, bin_op_s one-hot values)."""
-    import importlib
     import torchlogix.functional as F
-    importlib.reload(F)
     a = torch.tensor([float(p[0]) for p in pts], dtype=torch.float64)
     b = torch.tensor([float(p[1]) for p in pts], dtype=torch.float64)
     n = len(F.ID_TO_OP)
@@ -60,9 +58,7 @@ def real_ops(ck, pts):
 
 def compile_templates(ck, W, vecs):
     """Real get_gate_code text for every gate, compiled by real gcc; returns res[g][k]."""
-    import importlib
     import torchlogix.compiled_model as CM
-    importlib.reload(CM)
     net = CM.CompiledLogicNet(None, num_bits=W)
     T = CM.BITS_TO_DTYPE[W]
     lines = ["#include <stddef.h>", f"void run({T} const *x, {T} const *y, {T} *out, size_t n) {{",
